@@ -239,7 +239,7 @@ func discharge(results []*FuncResult, workers int, timeoutMs int, seed int, keep
 	for _, fr := range results {
 		for _, o := range fr.Obls {
 			if skipObl != nil && !o.Cover && skipObl(o.Name) {
-				skipped = append(skipped, &Verdict{Obl: o, Func: fr.Name, Status: "undecided", Output: "not attempted in the quick tier: unclaimed on the unchanged tree (obligations.lock class u)"})
+				skipped = append(skipped, &Verdict{Obl: o, Func: fr.Name, Status: "undecided", Output: "not attempted: unclaimed on the unchanged tree (obligations.lock class u); attempted again at every lock refresh"})
 				continue
 			}
 			// the full script (every assumption made before the obligation) is the only one whose
